@@ -6,91 +6,91 @@ ALL = ["C%02d" % i for i in range(1, 21)]
 
 CHECKS = {
  "C04": dict(
-   technique="property-based testing: generated lexeme sequences vs reference lexer (by-construction expectations), metamorphic layout/case relation, exhaustive operator-pair enumeration",
+   technique="property-based testing: generated lexeme sequences vs reference lexer (by-construction expectations), metamorphic layout/case relation, exhaustive operator-pair enumeration; thorough tier adds coverage-guided native fuzzing (go test -fuzz over rapid.MakeFuzz) of the same generator and oracle",
    level="exploration",
    text="Generated-input search: lexeme sequences of the documented lexical grammar with every separator class; expected kinds, decoded values, exactly one EOF and comment texts are known by construction and cross-checked by an independent reference lexer; the same lexemes under two layouts/cases must read the same. All ordered operator/punctuation pairs are enumerated exhaustively. Absence of violations outside the explored cases is not established.",
    note="Trusted: the reference lexer and the generator's decoding tables (written from the docs); the observation function that splits compound keyword tokens; words outside the core keyword list may be typed either way.",
    design="4/C04"),
  "C05": dict(
-   technique="property-based testing: generated texts with positions known by construction; positioned lexical-error injection; invariants over the token stream (order, containment)",
+   technique="property-based testing: generated texts with positions known by construction; positioned lexical-error injection; invariants over the token stream (order, containment); thorough tier adds coverage-guided native fuzzing (go test -fuzz over rapid.MakeFuzz) of the same generator and oracle",
    level="exploration",
    text="Generated-input search: every token, comment and end-of-input marker of generated texts is compared with the line:column the generator placed it at (exact where the line prefix is ASCII and tab-free, line number elsewhere), plus 1-based/ordering/containment invariants; lexical errors of eight families are planted at known offsets and the structured error's location is compared; parser error locations over single-token corruptions of generated statements. Not a proof: only generated layouts are covered.",
    note="Trusted: the generator's own offset bookkeeping; tab and non-ASCII columns are deliberately not asserted exactly (property text); a line comment's end may be its last character or the start of the next line.",
    design="4/C05"),
  "C03": dict(
-   technique="property-based testing: grammar-directed statement generator with a model tree (round-trip text -> parse -> tree equality), random parenthesisation and keyword case",
+   technique="property-based testing: grammar-directed statement generator with a model tree (round-trip text -> parse -> tree equality), random parenthesisation and keyword case; thorough tier adds coverage-guided native fuzzing (go test -fuzz over rapid.MakeFuzz) of the same generator and oracle",
    level="exploration",
    text="Generated-input search: a model tree is drawn first (typed expressions over every operator level, every SELECT clause, joins, set operations, CTEs, INSERT/UPDATE/DELETE with their clauses, MERGE with table or sub-query source and all WHEN forms, CREATE TABLE with column and table constraints, CREATE INDEX/VIEW/MATERIALIZED VIEW, DROP, TRUNCATE, REFRESH, seven ALTER TABLE operations) and rendered with required plus random redundant parentheses; gosqlx.Parse must accept and its tree must deep-equal the model tree built from the library's own node types (both directions: nothing lost, nothing invented). Not exhaustive beyond the generated cases.",
    note="Trusted: the model grammar and its AST conventions (pkg/sql/ast/doc.go, DESIGN appendix A); constructs no document promises (clauses after a FROM-less SELECT, implicit alias after a bare column, mixed INTERSECT precedence, the DDL forms listed in DESIGN.md 9.4) are not generated.",
    design="4/C03"),
  "C06": dict(
-   technique="property-based testing: round-trip (serialise -> re-parse -> tree equality) and idempotence over generated statements x five serialisers x drawn option sets",
+   technique="property-based testing: round-trip (serialise -> re-parse -> tree equality) and idempotence over generated statements x five serialisers x drawn option sets; thorough tier adds coverage-guided native fuzzing (go test -fuzz over rapid.MakeFuzz) of the same generator and oracle",
    level="exploration",
    text="Generated-input search: every G-SQL statement (queries, DML, MERGE, the modelled DDL) that the parser accepts is serialised by AST.SQL, AST.Format, gosqlx.Format, formatter.Format and the CLI SQLFormatter under drawn option sets; the output must be accepted, re-parse to the same tree (strings case-folded) and be a fixed point of the same serialiser. Exploration only; the cli serialiser is steered around one listed finding and ALTER statements around another (no serialiser exists for them).",
    note="Trusted: gosqlx.Parse as the reader on both sides (its own correctness is C03's business); case-folded tree comparison cannot see a change that only alters the case of a name.",
    design="4/C06"),
  "C07": dict(
-   technique="property-based testing: differential over 17 parse/validate/recovery entry points and batch-vs-individual relation on generated inputs",
+   technique="property-based testing: differential over 17 parse/validate/recovery entry points and batch-vs-individual relation on generated inputs; thorough tier adds coverage-guided native fuzzing (go test -fuzz over rapid.MakeFuzz) of the same generator and oracle",
    level="exploration",
    text="Generated-input search: valid, hostile-layout, single-token-corrupted, multi-statement (stray semicolons) and lexical-soup inputs, each run through every convenience, byte, context, timeout, batch, low-level (plain/context/positions), validator and recovery entry point; verdicts, trees and error codes must agree pairwise; batch calls must equal the individual calls and name the first failing index. The three low-level statement loops are also compared under the same parser options (strict, dialect).",
    note="Trusted: astdump as tree equality; error code = Code of the *errors.Error reachable with errors.As; inputs made only of semicolons/blank/comments are excluded as the property says.",
    design="4/C07"),
  "C13": dict(
-   technique="property-based testing: generated rejected inputs x 15 failing entry points against a validity predicate on the returned error (structure, code family vs independently known failing stage, location range, cause chain) plus a repeat-call determinism relation",
+   technique="property-based testing: generated rejected inputs x 15 failing entry points against a validity predicate on the returned error (structure, code family vs independently known failing stage, location range, cause chain) plus a repeat-call determinism relation; thorough tier adds coverage-guided native fuzzing (go test -fuzz over rapid.MakeFuzz) of the same generator and oracle",
    level="exploration",
    text="Generated-input search over rejected inputs: single-token corruptions of generated statements (one-line and multi-line), 13 kinds of lexical error after a valid prefix, soup, nesting beyond the depth limit in five constructs, bad statement starts; through every entry point that can fail. Each reported error must unwrap to *errors.Error with a documented code of the right family (the failing stage is known from running the tokenizer alone), a non-empty message, an in-range location when set, a reachable cause, and must be identical when the call is repeated after unrelated parses.",
    note="Trusted: the code registry read from pkg/errors/errors.go of the tree under test; stage classification by a tokenizer-only run; byte/token limit violations are exercised in C02.",
    design="4/C13"),
  "C12": dict(
-   technique="property-based testing: generated scripts of valid/corrupted segments with strict parsing of each segment as the reference model; differential (recovery vs strict) on arbitrary soup; hang budget for termination",
+   technique="property-based testing: generated scripts of valid/corrupted segments with strict parsing of each segment as the reference model; differential (recovery vs strict) on arbitrary soup; hang budget for termination; thorough tier adds coverage-guided native fuzzing (go test -fuzz over rapid.MakeFuzz) of the same generator and oracle",
    level="exploration",
    text="Generated-input search: (a) token soup, statement-keyword soup and multiply-corrupted statements: recovery parsing must return within a generous budget and report an error exactly when strict parsing fails; (b) scripts S1;...;Sn of flat generated statements, each kept or corrupted: recovery must return exactly the trees strict parsing gives for the well-formed segments, in order, and one error per malformed segment naming a token of that segment. Termination is decided by budget, not proved.",
    note="Trusted: gosqlx.Parse of a segment alone as the classifier; parser token indices equal generated token indices (GROUPING SETS, the one compound token that is not re-split, is not generated here).",
    design="4/C12"),
  "C14": dict(
-   technique="property-based testing: differential between ast.Inspect's visit multiset and a reflection walk over every exported field (generated trees), plus an exhaustive marker sweep over every (node type, node-holding field) of a registry generated from the sources",
+   technique="property-based testing: differential between ast.Inspect's visit multiset and a reflection walk over every exported field (generated trees), plus an exhaustive marker sweep over every (node type, node-holding field) of a registry generated from the sources; thorough tier adds coverage-guided native fuzzing (go test -fuzz over rapid.MakeFuzz) of the same generator and oracle",
    level="exploration",
    text="Generated-input search: for trees parsed from generated statements the multiset of (type, content) of nodes handed to ast.Inspect's callback must equal the multiset of node-typed values reachable by reflection through every exported field - missing and extra nodes are both violations. Exhaustive sub-check: for every node type of package ast and every field that can hold a node, a marker planted in that field must be visited (the registry is regenerated from the tree under test, so new types and fields are covered).",
    note="Trusted: 'part of the tree' = reachable through exported fields; node = T or *T implements ast.Node; empty-interface payload fields are not node holders. One listed finding (window frame bounds) is pinned by the existing suite and therefore not repaired.",
    design="4/C14"),
  "C08": dict(
-   technique="stateful property-based testing: generated operation histories on one tokenizer and one parser with a fresh, identically configured instance as the reference model (probe comparison after the history)",
+   technique="stateful property-based testing: generated operation histories on one tokenizer and one parser with a fresh, identically configured instance as the reference model (probe comparison after the history); thorough tier adds coverage-guided native fuzzing (go test -fuzz over rapid.MakeFuzz) of the same generator and oracle",
    level="exploration",
    text="Generated-history search: sequences of tokenize / parse (five entry points, valid, invalid, failing deep inside nesting, over the depth limit, cancelled at a drawn poll) / option changes / Reset / Release / pool Put->Get on one instance, followed by probe calls whose tokens, comments, dialect, tree and full error text must equal those of fresh instances configured as the current holder did. Probes include an input exactly as deep as a fresh parser accepts (so a leak of one recursion level shows), a dialect-sensitive statement and stray semicolons. Pool identity is forced by pinning the goroutine and pausing GC, and counted.",
    note="Trusted: sync.Pool returns the just-released object on a pinned goroutine (measured per run: pool_identity_hit_* classes); Release and Tokenizer.Reset are documented to keep configuration.",
    design="4/C08"),
  "C11": dict(
-   technique="property-based testing with an owned schedule: a counting context.Context fires at the k-th poll; per generated input every poll index is enumerated exhaustively (up to 400, sampled above) with both context errors",
+   technique="property-based testing with an owned schedule: a counting context.Context fires at the k-th poll; per generated input every poll index is enumerated exhaustively (up to 400, sampled above) with both context errors; thorough tier adds coverage-guided native fuzzing (go test -fuzz over rapid.MakeFuzz) of the same generator and oracle",
    level="exploration",
    text="Generated-input search x exhaustive enumeration of cancellation points per input: the input is first run with a context that never fires (result must equal the context-free call; P polls are counted), then with a context that turns done at every poll index k < P, with Canceled and DeadlineExceeded, through gosqlx.ParseWithContext, Tokenizer.TokenizeContext and Parser.ParseContext: no value may be returned, the error must match exactly that context error under errors.Is, at most 3 further polls may follow, and the tokenizer/parser used must answer a depth-limit probe exactly like fresh instances.",
    note="Trusted: the library reads a context only through Err() (a Done()-based wait would not be counted); 'bounded further work' is measured in polls, not time.",
    design="4/C11"),
  "C15": dict(
-   technique="property-based testing: generator-known name sets as the reference model (set equality both ways), metamorphic re-layout",
+   technique="property-based testing: generator-known name sets as the reference model (set equality both ways), metamorphic re-layout; thorough tier adds coverage-guided native fuzzing (go test -fuzz over rapid.MakeFuzz) of the same generator and oracle",
    level="exploration",
    text="Generated-input search: the statement generator records every table written in a table position (FROM, JOIN, DML and MERGE targets and sources, any nesting depth), every column reference and every function call it places; ExtractTables/TablesQualified/Columns/ColumnsQualified/Functions and ExtractMetadata must return exactly those sets - nothing missing, nothing extra (aliases, synthetic join names, string contents), no duplicates - and the same sets for a hostile re-layout of the same tokens.",
    note="Trusted: the generator's bookkeeping; unqualified table names are compared on their last part; CTE column lists and FOR UPDATE OF names are accepted either way.",
    design="4/C15"),
  "C16": dict(
-   technique="property-based testing: metamorphic relation over a payload x position x layout x threshold grid (findings at the canonical position must be contained in the findings at every other position/layout), exhaustive payload x position grid, invariants on counts/thresholds/no-mutation/scan independence",
+   technique="property-based testing: metamorphic relation over a payload x position x layout x threshold grid (findings at the canonical position must be contained in the findings at every other position/layout), exhaustive payload x position grid, invariants on counts/thresholds/no-mutation/scan independence; thorough tier adds coverage-guided native fuzzing (go test -fuzz over rapid.MakeFuzz) of the same generator and oracle",
    level="exploration",
    text="Generated-input search plus an exhaustive payload x position grid: each documented payload (3 tautologies, 6 time-delay/dangerous calls, 4 UNION probes) is first scanned as the top-level WHERE condition (must carry its documented class and severity), then at 49 condition/expression/UNION positions (incl. MERGE ON and WHEN conditions, MERGE SET/INSERT values, view bodies) up to nesting depth 2, in single- and multi-statement scripts, under random whitespace, letter case and redundant parentheses: the same (pattern, severity) must be reported; raising the minimum severity must filter exactly; counts must equal the list; the tree must not change; A,B,A scans must agree. The text scanner ScanSQL gets the whitespace/case invariance and threshold/count checks.",
    note="Trusted: the payload catalogue's documented class/severity (from the scanner's own tables/docs); containment on (pattern, severity) pairs, extra findings allowed; comments are not used as layout for the regex scanner.",
    design="4/C16"),
  "C09": dict(
-   technique="stateful property-based testing (hold/release/churn histories with snapshot invariants and pool-draw distinctness) plus an exhaustive (pooled type, field) cleanliness sweep over a generated registry, and a model-equality parse after polluting every pool",
+   technique="stateful property-based testing (hold/release/churn histories with snapshot invariants and pool-draw distinctness) plus an exhaustive (pooled type, field) cleanliness sweep over a generated registry, and a model-equality parse after polluting every pool; thorough tier adds coverage-guided native fuzzing (go test -fuzz over rapid.MakeFuzz) of the same generator and oracle",
    level="exploration",
    text="(a) Exhaustive sweep: for every pooled type with a Put accessor and every exported field, a value with that field (and once every field) filled with arbitrary content is released; the released object and the next Get (same object on a pinned goroutine) must equal a fresh value. (b) Generated statements are parsed after fully populated values of every pooled type were released through PutX/PutExpression/ReleaseAST; the tree must still equal the model tree. (c) Generated histories of parse/tokenize/derive-and-hold, release, churn on this and other goroutines, pooled-tokenizer reuse and direct pool draws: every held value must keep its snapshot, and values drawn from the pools must be pairwise distinct and not part of any tree still held.",
    note="Trusted: astdump as deep equality (capacities ignored); pool identity by goroutine pinning (counted). Goroutine interleavings in the churn action are the runtime's, not enumerated.",
    design="4/C09"),
  "C18": dict(
-   technique="stateful property-based testing: generated JSON-RPC message histories against a real server over in-memory pipes with a UTF-16 reference document model; exhaustive enumeration of edit ranges on small documents",
+   technique="stateful property-based testing: generated JSON-RPC message histories against a real server over in-memory pipes with a UTF-16 reference document model; exhaustive enumeration of edit ranges on small documents; thorough tier adds coverage-guided native fuzzing (go test -fuzz over rapid.MakeFuzz) of the same generator and oracle",
    level="exploration",
    text="Generated-history search: up to 30 framed messages per history (document lifecycle with full/incremental/batched edits whose ranges are in range, past the end, inverted or negative, over ASCII, BMP and astral text; every request kind at arbitrary positions; unknown methods; requests without params; wrongly typed envelopes; malformed JSON; bad headers). After every message a sentinel request acts as a barrier and the invariants are checked: server alive, every outgoing frame well-formed with an exact Content-Length, exactly one response per request id and none otherwise, the server's copy of each document equals the reference model, and the last published diagnostics match the recovery parse of the model text in version, number and line. All (startLine, startChar, endLine, endChar) combinations over three small documents with an astral character are enumerated exhaustively.",
    note="Trusted: sequential message handling (barrier); the reference model's reading of the protocol's clamping rules; edits outside the protocol (negative, inverted, inside a surrogate pair) only have to be survived.",
    design="4/C18"),
  "C17": dict(
-   technique="property-based testing: token-sequence preservation (round-trip through the tokenizer), idempotence and re-lint relations over generated hostile layouts for every rewriter; differential of each layout rule against a reference predicate computed with the reference lexer",
+   technique="property-based testing: token-sequence preservation (round-trip through the tokenizer), idempotence and re-lint relations over generated hostile layouts for every rewriter; differential of each layout rule against a reference predicate computed with the reference lexer; thorough tier adds coverage-guided native fuzzing (go test -fuzz over rapid.MakeFuzz) of the same generator and oracle",
    level="exploration",
    text="Generated-input search over texts with hostile layout (double spaces, tabs, mixed indentation, trailing blanks, blank-line runs, CRLF, multi-line literals containing keywords/blanks, keyword-spelled quoted identifiers, comments containing quotes and keywords, non-ASCII). Rewriters: each auto-fixable rule's Fix alone, all fixes in the CLI's order, and the language server's textDocument/formatting applied through a real server. For each: token sequence and comment texts preserved (unquoted words case-insensitively), fixed point, no remaining violation of an applied rule, every violation location inside the text. Each layout rule (L001, L003, L005, L010, L007) must report exactly the (line, column) set of a reference predicate written from docs/LINTING_RULES.md and evaluated with the reference lexer's knowledge of literal and comment spans.",
    note="Trusted: the library tokenizer as token reader (C04), the reference lexer for spans; blanks after a line comment's last visible character count as layout; one listed finding (backslash-escaped quotes) is pinned by the existing suite.",
